@@ -376,8 +376,11 @@ def cp2k_requested_once(C, tmpl_path, out_path, upd):
         for k, v in val.get("data", {}).items():
             want = str(k) if v is None else f"{k} {v}".strip()
             n0 = sum(1 for l in before[tgt].data if l.split()[:1] == [k]) if tgt in before else 0
+            # CP2K reads keywords case-insensitively: a tree that does so too (repaired variant of the open finding
+            # C19:cp2k:wfrvel:keyword-case) rewrites the lines that spell the keyword in another case as well
+            n0ci = sum(1 for l in before[tgt].data if l.split() and l.split()[0].upper() == str(k).upper()) if tgt in before else 0
             got = [l for l in after[tgt].data if l.split()[:1] == [k]]
-            if len(got) != max(1, n0) or any(g != want for g in got):
+            if len(got) not in (max(1, n0), max(1, n0ci)) or any(g != want for g in got):
                 return (f"{tgt}: requested {want!r}; lines of the section that start with the word {k!r}: {got!r} "
                         f"(the template had {n0})")
     return None
@@ -391,6 +394,48 @@ def copy_upd(upd):
 def enc(upd):
     from props.c19_cp2k import enc_update
     return enc_update(upd)
+
+
+# ----------------------------------------------------------------------------------------- CP2K cell lines
+def boxdata_block(ctx, fails):
+    """read_box_data on CELL lines whose numbers are separated by white space of every kind (`line.split()` is
+    str.isspace; only the ONE blank after the keyword is literal: `startswith(f"{key} ")`).  Model: `splitPy`.
+    Predicate, independent of the model: the box read from a line does not depend on WHICH white space separates the
+    numbers (every separator replaced by a blank gives the same answer)."""
+    import numpy as np
+    from props import c19_boxdata as BD
+    from infretis.classes.engines import cp2k as C
+    rng = ctx.rng
+    seps = [" ", "  ", "\t", "\xa0", "\x85", " \xa0", "\x1f", "\x0b"]
+    lines_, meta = [], []
+    for _ in range(150 if ctx.quick else 1500):
+        ls = []
+        for key in rng.sample(["A", "B", "C", "ABC", "ALPHA_BETA_GAMMA", "PERIODIC"], rng.randint(1, 4)):
+            first = rng.choice([" ", " ", " ", "\xa0", "\t"])          # not a blank: the line is not recognised
+            if key == "PERIODIC":
+                body = rng.choice(["XYZ", "xy", "NONE", "x" + rng.choice(seps) + "z"])
+            elif key == "ALPHA_BETA_GAMMA":
+                body = rng.choice(seps).join(["90", "90", "90"][:rng.choice((2, 3, 3))])
+            else:
+                body = rng.choice(seps).join(str(rng.randint(-9, 30)) for _ in range(rng.choice((1, 3, 3, 3, 4))))
+            ls.append(key + first + body + rng.choice(["", "", "\xa0"]))
+        real = BD.run_real(np, C, ls)
+        plain = BD.run_real(np, C, ["".join(" " if (ch.isspace()) else ch for ch in l) for l in ls])
+        lines_.append("boxdata " + " ".join([str(len(ls))] + [l1hex(l) for l in ls]))
+        meta.append((ls, real, plain))
+    outs = ctx.driver(lines_) if ctx._driver_ok else None
+    for i, (ls, real, plain) in enumerate(meta):
+        odd = any(ch in l for l in ls for ch in "\xa0\x85\x1f\x0b")
+        ctx.count(1, branch="uni:boxdata-" + ("odd-white-space" if odd else "blanks-and-tabs"))
+        ctx.distinct(("uni-boxdata", tuple(ls)))
+        if outs is not None and outs[i] != "outside" and real != outs[i]:
+            ctx.disagree({"part": PART, "fn": "read_box_data", "lines": ls}, real, outs[i])
+        # only separators AFTER the keyword's own blank may be exchanged: compare when every line keeps its `KEY ` prefix
+        if all(l.split(" ", 1)[0] in ("A", "B", "C", "ABC", "ALPHA_BETA_GAMMA", "PERIODIC") and " " in l for l in ls) \
+                and real != plain:
+            fails.setdefault("C19:uni:boxdata-separator", (f"CELL lines {ls!r} read as {real}, with blanks as separators {plain}",
+                                                            {"part": PART, "kind": "boxdata", "lines": ls}))
+    return len(meta)
 
 
 # ----------------------------------------------------------------------------------------- never-executed branches
@@ -479,6 +524,7 @@ def run_part(ctx):
         n2 = g96_block(ctx, d, fails)
         n3 = cp2k_block(ctx, d, fails)
         misc_block(ctx, d, fails)
+        boxdata_block(ctx, fails)
     finally:
         shutil.rmtree(d, ignore_errors=True)
     for sig in sorted(fails):
@@ -523,6 +569,11 @@ def replay_part(ctx, obj):
                            and [CC.nz(CC.f2d(v)) for v in res[3]] == [CC.nz(b) for b in r["box"]])
             except Exception:  # noqa: BLE001
                 bad = True
+        elif r.get("kind") == "boxdata":
+            from props import c19_boxdata as BD
+            from infretis.classes.engines import cp2k as C
+            ls = r["lines"]
+            bad = BD.run_real(np, C, ls) != BD.run_real(np, C, ["".join(" " if ch.isspace() else ch for ch in l) for l in ls])
         elif r.get("kind") == "misc":
             fl = {}
             misc_block(types.SimpleNamespace(rng=__import__("random").Random(0), count=lambda *a, **k: None), d, fl)
